@@ -685,6 +685,19 @@ pub fn c11(case: &Case, out: &Outcome) -> Verdict {
             }
         }
     }
+    // the converse (README: "parentheses are still kept in situations where removal can lead to obscurity", e.g. before
+    // an index or a method call on the call's result): a call that had its parentheses in the input may not lose
+    // them there
+    if matches!(case.cfg.call_parentheses, CallParens::None | CallParens::NoSingleString | CallParens::NoSingleTable) && in_calls.len() == calls.len() {
+        for (i, o) in in_calls.iter().zip(calls.iter()) {
+            if i.form == 'P' && o.form != 'P' && o.obscure {
+                return Verdict::Fail(format!(
+                    "call parentheses removed in front of an index / method call on the result (form {}) under {:?}",
+                    o.form, case.cfg.call_parentheses
+                ));
+            }
+        }
+    }
     if case.cfg.call_parentheses == CallParens::Input {
         let a: String = in_calls.iter().map(|c| c.form).collect();
         let b: String = calls.iter().map(|c| c.form).collect();
@@ -850,9 +863,6 @@ pub fn c08(case: &Case, out: &Outcome) -> Verdict {
         return Verdict::Skip(LOSSY);
     }
     let syn = case.cfg.syntax;
-    if case.range.is_some() {
-        return Verdict::Skip("range given");
-    }
     let q = match out {
         Outcome::Ok(q) => q,
         Outcome::ParseError(_) => return Verdict::Skip("input does not parse"),
@@ -904,7 +914,9 @@ pub fn c08(case: &Case, out: &Outcome) -> Verdict {
     // second half: statements away from ignored nodes are formatted exactly as without the directives
     // (not with sort_requires on: a directive also decides whether a group of requires is sorted, so the run without
     // directives orders statements differently; the first half still holds there)
-    if case.cfg.sort_requires {
+    // (nor with a range: an ignored node stays verbatim whether the range covers it, cuts through it or misses it —
+    // the directive is looked at before the range — but its neighbours are formatted or kept by C09's rules)
+    if case.cfg.sort_requires || case.range.is_some() {
         return Verdict::Pass { nontrivial: true };
     }
     let neutral = Case { source: neutralise_directives(&case.source), ..case.clone() };
@@ -1049,6 +1061,32 @@ pub fn c09(case: &Case, out: &Outcome) -> Verdict {
         .collect();
     let touched: Vec<&crate::model::StmtSpan> = stmts.iter().zip(classes.iter()).filter(|(_, c)| **c != InRange::Outside).map(|(s, _)| s).collect();
     let code: Vec<&Tok> = ti.iter().filter(|t| !t.kind.is_trivia()).collect();
+    // (0) a range that ends before the end of the text leaves the end-of-file token outside it: the blank lines and
+    // comments that belong to that token (everything behind the line of the last code token) stay byte for byte
+    if let Some(e) = re {
+        if e + 2 < src.len() && rs.map_or(true, |s| s <= src.len()) {
+            let last_end = code.last().map_or(0, |t| t.end);
+            let mut eof_start = None;
+            for t in ti.iter().filter(|t| t.start >= last_end) {
+                if t.kind == crate::lex::Kind::Ws {
+                    if let Some(p) = t.text(src).find('\n') {
+                        eof_start = Some(t.start + p + 1);
+                        break;
+                    }
+                }
+            }
+            if let Some(at) = eof_start {
+                if code.is_empty() {
+                    // no code at all: the whole text is the end-of-file token's
+                } else if !q.ends_with(&src[at..]) {
+                    return Verdict::Fail(format!(
+                        "the range ends before the end of the file but the text behind the last code line changed: `{}`",
+                        short(&src[at..].replace('\n', "⏎"), 80)
+                    ));
+                }
+            }
+        }
+    }
     // (4) nothing inside: the text up to the last token is unchanged
     if touched.is_empty() {
         let last_end = code.last().map_or(0, |t| t.end);
@@ -1171,6 +1209,63 @@ pub fn c09(case: &Case, out: &Outcome) -> Verdict {
                             ));
                         }
                     }
+                }
+            }
+        }
+    }
+    // (3b) indentation: a statement inside the range whose enclosing statements all lie outside it is formatted at the
+    // indentation of its block depth - one level per enclosing block, whether the block is a statement's body or the
+    // body of a function inside an expression (nothing around it is laid out, so no hanging indent applies)
+    // (programs with ignore directives are left out: an ignored statement inside the range keeps its own indentation)
+    if !case.cfg.sort_requires && !has_ignore_directive(src) && lex::t_sequence(q, &to, syn) == lex::t_sequence(src, &ti, syn) {
+        for (st, cl) in stmts.iter().zip(classes.iter()) {
+            if *cl != InRange::Inside {
+                continue;
+            }
+            // enclosing statements (any class but Outside) lay this one out themselves
+            if stmts.iter().zip(classes.iter()).any(|(o, oc)| *oc != InRange::Outside && (o.start < st.start || o.end > st.end) && o.start <= st.start && st.end <= o.end) {
+                continue;
+            }
+            let a = t_count_before(src, &ti, st.start);
+            let b = t_count_before(src, &ti, st.end);
+            if b <= a {
+                continue;
+            }
+            if let Some((s1, e1)) = t_slice(q, &to, a, b) {
+                let line_start = q[..s1].rfind('\n').map_or(0, |p| p + 1);
+                let lead = &q[line_start..s1];
+                // blocks inside the expressions of some statement kinds (loop bounds, say) are not visited at all: a
+                // statement that kept its text and its indentation was simply not reached, which the property allows
+                let src_line_start = src[..st.start].rfind('\n').map_or(0, |p| p + 1);
+                let _ = e1;
+                let first_line = |t: &str, at: usize| -> String { t[at..].lines().next().unwrap_or("").trim_end().to_string() };
+                if lead == &src[src_line_start..st.start] && first_line(q, s1) == first_line(src, st.start) {
+                    continue;
+                }
+                // a statement that begins with a parenthesis: the semantic token sequence starts behind it
+                if src[st.start..].starts_with('(') {
+                    continue;
+                }
+                if line_start == 0 && st.depth > 0 {
+                    continue;
+                }
+                if !lead.chars().all(|c| c == ' ' || c == '\t') {
+                    continue;
+                }
+                // leading comments of the statement sit between the line start and the first token only when they are
+                // block comments on the same line: those lines were skipped above (not blank)
+                let want = match case.cfg.indent_type {
+                    crate::cfg::Indent::Tabs => "\t".repeat(st.depth),
+                    crate::cfg::Indent::Spaces => " ".repeat(st.depth * case.cfg.indent_width),
+                };
+                if lead != want {
+                    return Verdict::Fail(format!(
+                        "statement inside the range at block depth {} is indented by {:?}, expected {:?}: `{}`",
+                        st.depth,
+                        lead,
+                        want,
+                        short(&q[s1..], 60)
+                    ));
                 }
             }
         }
